@@ -125,6 +125,15 @@ def _mirror_kw(kw):
     return m
 
 
+def _root_floor(fa):
+    """the star pressure is a bisection root with scipy's absolute tolerance 2e-12: next to a vacuum (p* ~ 1e-9) the star velocity,
+    computed from one side, carries du = dp / sqrt(gamma p rho); the mirrored problem computes it from the other side"""
+    with np.errstate(all="ignore"):
+        v = 1e-11 / np.sqrt(fa["pressure"] * fa["density"])
+    v = v[np.isfinite(v)]
+    return float(np.max(v)) if v.size else 0.0
+
+
 def mirror(state, rs, tid):
     fam = state["fam"]
     kw = G.kwargs(state)
@@ -135,7 +144,7 @@ def mirror(state, rs, tid):
     fa = G.fields(sa)
     fb = {n: v[::-1] for n, v in G.fields(sb).items()}
     fl = floors(fa)
-    fl["velocity"] = max(fl.get("velocity", 0.0), 1e-9 * float(np.sqrt(np.nanmax(fa["pressure"] / fa["density"]))))
+    fl["velocity"] = max(fl.get("velocity", 0.0), 1e-9 * float(np.sqrt(np.nanmax(fa["pressure"] / fa["density"]))), _root_floor(fa))
     return rel_events(tid, "Mirror", fam, state["row"]["res"], fa, fb, {}, fl), 2 * len(pts)
 
 
@@ -157,6 +166,7 @@ def boost(state, rs, tid):
     fa, fb = G.fields(sa), G.fields(sb)
     ua, ub = fa.pop("velocity"), fb.pop("velocity")
     c = float(np.sqrt(np.nanmax(fa["pressure"] / fa["density"])))
+    c = max(c, 1e3 * _root_floor(fa))          # the velocity balance is judged against c x 1e-8 x tolerance: keep the root-finder's resolution above it
     ev = rel_events(tid, "Boost", fam, state["row"]["res"], fa, fb, {})
     for i, e in enumerate(ev):
         e["ubal"] = E.e8([ub[i], -ua[i], -U], c)
